@@ -80,7 +80,8 @@ PROPS = {
                 'read_index proved to rebuild the index as "every oid -> its LAST record below the committed end" '
                 '(nested-loop invariant over the record tiling); MappingStorage.loadBefore and DemoStorage.loadBefore proved '
                 'against ordered-map / two-layer models (greatest revision strictly below the bound, least one at or above '
-                'as end); MappingStorage.getTid (newest revision) and loadSerial (exactly the revision with that tid, else '
+                'as end); MappingStorage.tpc_begin proved to choose a tid later than every committed transaction (newTid: A-TIMESTAMP); '
+                'MappingStorage.getTid (newest revision) and loadSerial (exactly the revision with that tid, else '
                 'POSKeyError) proved against the same ordered-map model; FileIterator._scan_forward/_scan_backward proved '
                 'to stop at the first transaction with tid >= start.',
         'note': 'RI (chains) is assumed by the query contracts; its preservation by finish is argued by lemma over '
@@ -125,8 +126,10 @@ PROPS = {
                 'transaction proved without effect; tpc_begin proved to leave LOCKINV (lock held <=> transaction '
                 'recorded) also when metadata is over-long; tpc_abort proved to restore file end, staging, blob '
                 'dirty list and to release the commit lock; tpc_finish releases it on every path; MappingStorage.tpc_abort '
-                'proved to forget its own transaction and free the commit lock, and to change nothing for a foreign one.',
-        'note': 'Single fault (a second failure inside a cleanup handler is outside). MappingStorage.tpc_begin/'
+                'proved to forget its own transaction and free the commit lock, and to change nothing for a foreign one; '
+                'MappingStorage.tpc_begin proved to refuse a duplicate call without effect, to take the commit lock outside '
+                'the storage lock and to leave LOCKINV with an empty staging area.',
+        'note': 'Single fault (a second failure inside a cleanup handler is outside). MappingStorage.'
                 'tpc_finish: not under contract; DemoStorage/BlobStorage wrappers: see C16/C13. Connection-level cleanup: C11.',
         'design_ref': 'DESIGN.md section 5 C05',
     },
